@@ -111,7 +111,7 @@ impl<'a> TryFrom<Data<'a>> for sam::alignment::record_buf::Data {
 }
 
 pub(crate) fn get_raw_cigar<'a>(src: &mut &'a [u8]) -> io::Result<Option<&'a [u8]>> {
-    use noodles_sam::alignment::record::data::field::Type;
+    use noodles_sam::alignment::record::data::field::{Type, value::array::Subtype};
 
     use self::field::{
         decode_tag, decode_type, decode_value,
@@ -125,6 +125,16 @@ pub(crate) fn get_raw_cigar<'a>(src: &mut &'a [u8]) -> io::Result<Option<&'a [u8
         if ty == Type::Array {
             let subtype = decode_subtype(src)?;
             let buf = decode_raw_array(src, subtype)?;
+
+            // § 4.2.2: the real CIGAR is stored as `CG:B,I`. An array of any other subtype is
+            // not a CIGAR (its byte length need not even be a whole number of 32-bit words).
+            if tag == Tag::CIGAR && subtype != Subtype::UInt32 {
+                return Err(io::Error::new(
+                    io::ErrorKind::InvalidData,
+                    "invalid CG data field type",
+                ));
+            }
+
             Ok(Some((tag, buf)))
         } else {
             decode_value(src, ty)?;
